@@ -121,7 +121,12 @@ class Env:
     def getenv(self, key):
         if key not in self.environ:
             k = self.run.choose([('unset', True), ('set', True)], f'env {key}')
-            self.environ[key] = self.value(self.run, f'env.{key}') if k == 'set' else None
+            if k == 'set':
+                # a variable may be present with an empty value (export NDN_CLIENT_X=): it is still the override
+                e = self.run.choose([('non-empty', True), ('empty', True)], f'env {key} value')
+                self.environ[key] = self.value(self.run, f'env.{key}') if e == 'non-empty' else Str(f'env.{key}(empty)', empty=True)
+            else:
+                self.environ[key] = None
         return self.environ[key]
 
     def filekey(self, key):
